@@ -73,11 +73,14 @@ def classify_crash(stderr_text, rc, timed_out):
     m = _ASSERT_RE.search(stderr_text) or _GLIBCXX_RE.search(stderr_text)
     if m:
         line = stderr_text[max(0, m.start() - 300):m.end()]
-        fn = re.search(r": ([^:]*?): Assertion", line)
+        fn = re.search(r":\d+: (.*?): Assertion", line, re.S)
         where = ""
         if fn:
-            where = re.sub(r"\[with .*", "", fn.group(1)).strip()
-            where = re.sub(r"<.*?>", "", where)[-90:]
+            where = re.sub(r"\[with .*", "", fn.group(1), flags=re.S).strip()
+            where = re.sub(r"<[^<>]*>", "", where)
+            where = re.sub(r"<[^<>]*>", "", where)
+            m2 = re.search(r"([A-Za-z_0-9:~]+)\(", where)
+            where = m2.group(1) if m2 else where[-90:]
         return {"key": "assert/%s@%s" % (m.group(1)[:120], where), "what": line[-600:]}
     if "Execution reached an unreachable point" in stderr_text:
         return {"key": "abort/cannot-happen", "what": stderr_text[-800:]}
